@@ -101,7 +101,7 @@ func checkC05(w *World, tier string) *Report {
 	r.Explanation = "Rules on (*EVM).Call (go/cfg paths, go/types resolved callees): R5.1 who-may-call — PreContractCall and PostContractCall each have exactly one call site in the fork, both in Call, neither inside a loop or a closure; " +
 		"R5.2 edge dominance — on every path reaching either site the literals `not a precompile`, `code non-empty`, `IsExecuteJP` hold; R5.3 ordering on all paths — pre site before interpreter.Run and never after it, post site after Run exactly once, neither Run nor the post site reachable after the pre result reported an error, every path from Run with join points enabled crosses the post site before returning; " +
 		"R5.4 argument provenance — From/To/Data/Value/Gas/Index of both input messages and the positional arguments are built from exactly the parameters caller, addr, input, value, the variable gas and this frame's call-tree node (obtained right after this frame's SaveCall with no intervening call that can move the cursor); the parameters are never re-assigned; post: Ret is the variable assigned from Run, Error the text of err under err != nil. " +
-		"LIFO nesting follows from R5.3 plus recursion (Run is the only way to a nested Call). Does not decide what aspect-core does with the call, nor a host toggling IsExecuteJP between the two sites."
+		"LIFO nesting follows from R5.3 plus recursion (Run is the only way to a nested Call). R5.5 ownership of the enable flag — EVM.IsExecuteJP is written only by the constructor literal and by setter methods whose whole body is one constant assignment to it, and no code of the fork calls those setters or takes the flag's address: the flag is the host's, so a frame cannot leave it switched off for the frames that follow (e.g. on an early return between a switch-off and a switch-on). Does not decide what aspect-core does with the call, nor a host toggling IsExecuteJP between the two sites."
 	// R5.1
 	for _, k := range []string{"PreContractCall", "PostContractCall"} {
 		sites := w.callSitesOf(func(f *types.Func) bool { return f.Name() == k })
@@ -129,6 +129,7 @@ func checkC05(w *World, tier string) *Report {
 	emitReturnRule(w, r, "R5.3", func(fn string) bool { return fn == "(*EVM).Call" })
 	r.need("R5.3", 3)
 	addR54(w, r)
+	addR55(w, r)
 	r.Assumptions = append(r.Assumptions, "the host does not toggle EVM.IsExecuteJP between the pre and post site of one call", "aspect-core's handling of the message (number and order of Aspects) is external")
 	return r
 }
@@ -355,4 +356,115 @@ func frameNodeVar(w *World, fl *Flow) (string, bool, string) {
 		return name, false, "the frame-node variable is assigned more than once"
 	}
 	return name, true, "`" + name + "` is read from the call tree right after this frame's SaveCall (only pure calls and the deferred exit in between) and never re-assigned"
+}
+
+
+// addR55: who-may-write the join-point enable flag.
+func addR55(w *World, r *Report) {
+	vmp := w.Pkgs[forkPath(pkVM)]
+	var flag *types.Var
+	if o := vmp.Types.Scope().Lookup("EVM"); o != nil {
+		if st, ok := o.Type().Underlying().(*types.Struct); ok {
+			for i := 0; i < st.NumFields(); i++ {
+				if st.Field(i).Name() == "IsExecuteJP" {
+					flag = st.Field(i)
+				}
+			}
+		}
+	}
+	if flag == nil {
+		r.undecided("R5.5", "vm.EVM.IsExecuteJP", "-", "field not found: the rule's anchor does not resolve")
+		return
+	}
+	setters := map[*types.Func]bool{}
+	var paths []string
+	for p := range w.Pkgs {
+		if strings.HasPrefix(p, forkMod) {
+			paths = append(paths, p)
+		}
+	}
+	sort.Strings(paths)
+	isFlag := func(p *packages.Package, e ast.Expr) bool {
+		sel, ok := ast.Unparen(e).(*ast.SelectorExpr)
+		return ok && p.TypesInfo.Uses[sel.Sel] == types.Object(flag)
+	}
+	nw := 0
+	for _, path := range paths {
+		p := w.Pkgs[path]
+		for _, f := range p.Syntax {
+			for _, d := range f.Decls {
+				fd, ok := d.(*ast.FuncDecl)
+				if !ok || fd.Body == nil {
+					continue
+				}
+				name := pkgShortOf(path) + "." + declRelName(fd)
+				// a setter: the whole body is one assignment of a constant to the flag
+				if len(fd.Body.List) == 1 {
+					if as, ok := fd.Body.List[0].(*ast.AssignStmt); ok && len(as.Lhs) == 1 && len(as.Rhs) == 1 && isFlag(p, as.Lhs[0]) {
+						isParam := false
+						if id, ok := ast.Unparen(as.Rhs[0]).(*ast.Ident); ok {
+							if v, ok := p.TypesInfo.Uses[id].(*types.Var); ok && fd.Type.Params != nil {
+								for _, f := range fd.Type.Params.List {
+									for _, nm := range f.Names {
+										if p.TypesInfo.Defs[nm] == types.Object(v) {
+											isParam = true
+										}
+									}
+								}
+							}
+						}
+						if tv, ok := p.TypesInfo.Types[as.Rhs[0]]; ok && (tv.Value != nil || isParam) {
+							if fo, ok := p.TypesInfo.Defs[fd.Name].(*types.Func); ok {
+								setters[fo] = true
+								nw++
+								what := "one of its own parameters"
+								if tv.Value != nil {
+									what = "the constant " + tv.Value.ExactString()
+								}
+								r.holds("R5.5", "writer:"+name, w.pos(as.Pos()), "host-facing setter: its whole body assigns "+what+" to the flag")
+								continue
+							}
+						}
+					}
+				}
+				ast.Inspect(fd.Body, func(n ast.Node) bool {
+					switch x := n.(type) {
+					case *ast.AssignStmt:
+						for _, l := range x.Lhs {
+							if isFlag(p, l) {
+								nw++
+								r.violated("R5.5", "writer:"+name, w.pos(x.Pos()), "the join-point enable flag is written inside "+name+": a frame that switches it must restore it on every path, and frames running meanwhile fire no join points")
+							}
+						}
+					case *ast.IncDecStmt:
+						if isFlag(p, x.X) {
+							r.violated("R5.5", "writer:"+name, w.pos(x.Pos()), "the join-point enable flag is modified inside "+name)
+						}
+					case *ast.UnaryExpr:
+						if x.Op == token.AND && isFlag(p, x.X) {
+							r.violated("R5.5", "address-taken:"+name, w.pos(x.Pos()), "the address of the join-point enable flag is taken in "+name)
+						}
+					case *ast.KeyValueExpr:
+						if id, ok := x.Key.(*ast.Ident); ok && p.TypesInfo.Uses[id] == types.Object(flag) {
+							nw++
+							if tv, ok := p.TypesInfo.Types[x.Value]; ok && tv.Value != nil {
+								r.holds("R5.5", "writer:"+name+"/literal", w.pos(x.Pos()), "constructor literal sets the flag to the constant "+tv.Value.ExactString())
+							} else {
+								r.violated("R5.5", "writer:"+name+"/literal", w.pos(x.Pos()), "a composite literal sets the flag to a non-constant value")
+							}
+						}
+					}
+					return true
+				})
+			}
+		}
+	}
+	sites := w.callSitesOf(func(f *types.Func) bool { return setters[f] })
+	if len(sites) == 0 {
+		r.holds("R5.5", "setter-callers", "-", fmt.Sprintf("%d setters, none called from inside the fork", len(setters)))
+	}
+	for _, s := range sites {
+		r.violated("R5.5", "setter-caller:"+s.fn, w.pos(s.call.Pos()), "the fork itself switches the join-point enable flag (call of a setter in "+s.fn+"): frames running until it is switched back fire no join points, and an early return in between leaves it off")
+	}
+	r.need("R5.5", 3)
 }
